@@ -92,6 +92,10 @@ def gen_elem(rng, L, be, hist=None):
         cls, v = "unreduced", v % D
     elif k == 14:
         cls, v = "high_limb_pattern", ((2 ** 64 - 1 - rng.below(4)) << (64 * (n - 2)) | rng.bits(64 * (n - 2)) | (rng.bits(64) << (64 * (n - 1)))) % D
+    elif k == 15:
+        m, j, sg = 1 + 2 * rng.below(1000), rng.below(65), rng.choice([1, -1])
+        x = sg * m * pow(2, rng.choice([j, -j]), p) % p
+        cls, v = "gcd_hard_m*2^+-j", L.mont(x)
     else:
         cls, v = "uniform", rng.below(D)
     if be != "ref" and rng.below(4) == 0 and v + p < D:
@@ -603,6 +607,119 @@ def oracle(L, be, line, res):
     if op == "gf_decode_reduce":
         return fpres(a[1] % 2 ** (8 * a[0]) if a[0] else 0)
     return ("%s:lvl%d:%s:no-oracle" % (be, L.lvl, op), "operation without oracle")
+
+
+# ---------------------------------------------------------------- binary-GCD stress (x86 inversion / Legendre)
+def gcd_hard_values(L, mmax=2000, jmax=40, extra_rng=None):
+    """field VALUES that drive a binary GCD close to its worst case: ±m/2^j and ±m·2^j for small odd m, values
+    near q/2, q/3, 2^k ± 1, ratios of consecutive Fibonacci numbers. Returns [(label, value, legendre or None)];
+    the Legendre symbol of ±m·2^(±j) is obtained multiplicatively from those of m, 2, −1 (cheap oracle)."""
+    p = L.p
+    leg = lambda v: 0 if v % p == 0 else (1 if pow(v % p, (p - 1) // 2, p) == 1 else -1)
+    l2, lm1 = leg(2), leg(p - 1)
+    inv2 = pow(2, -1, p)
+    out = []
+    pw = [1]
+    ipw = [1]
+    for _ in range(jmax):
+        pw.append(pw[-1] * 2 % p)
+        ipw.append(ipw[-1] * inv2 % p)
+    for m in range(1, mmax, 2):
+        lm = leg(m)
+        for j in range(jmax + 1):
+            lj = l2 if j % 2 else 1
+            for sg in (1, -1):
+                ls = lm * lj * (lm1 if sg < 0 else 1)
+                out.append(("%s%d/2^%d" % ("-" if sg < 0 else "", m, j), sg * m * ipw[j] % p, ls))
+                if j:
+                    out.append(("%s%d*2^%d" % ("-" if sg < 0 else "", m, j), sg * m * pw[j] % p, ls))
+    ext = []
+    for d in (2, 3, 5, 7):
+        for e in range(-3, 4):
+            ext.append(("q/%d%+d" % (d, e), (p // d + e) % p))
+    for k in list(range(1, 70)) + list(range(L.e - 4, L.e + 8)) + [64 * i + t for i in range(1, L.n) for t in (-1, 0, 1)]:
+        for e in (-1, 1):
+            ext.append(("2^%d%+d" % (k, e), (pow(2, k, p) + e) % p))
+    f0, f1 = 1, 1
+    for i in range(2, 2 * L.B):
+        f0, f1 = f1, f0 + f1
+        if i % 3 == 0 or i > 2 * L.B - 40:
+            ext.append(("fib%d/fib%d" % (i + 1, i), f1 * pow(f0, -1, p) % p))
+            ext.append(("-fib%d/fib%d" % (i, i + 1), (-f0) * pow(f1, -1, p) % p))
+    if extra_rng is not None:
+        for _ in range(300):
+            a, b = 1 + extra_rng.below(2 ** 20), 1 + extra_rng.below(2 ** 20)
+            ext.append(("%d/%d" % (a, b), a * pow(b, -1, p) % p))
+    out += [(n, v, None) for n, v in ext]
+    return out
+
+
+def gcd_sweep(ctx, exe, L, be, thorough=False, ref_exe=None):
+    """oracle-only sweep (no Lean model: ~10^5 calls per level) of fp_is_square / fp_inv / fp_sqrt / fp2_sqrt /
+    fp2_inv on binary-GCD-hard operands of back-end `be`; each real result is checked against the exact
+    specification. With `ref_exe` (C06) the ref build is run on the fp_is_square / fp_sqrt lines too and must agree."""
+    p, V = L.p, L.val
+    vals = gcd_hard_values(L, 2000, 64 if thorough else 40, ctx.rng.fork("gcd:%d" % L.lvl))
+    lines, chk = [], []
+    for idx, (name, v, ls) in enumerate(vals):
+        raw = L.mont(v)
+        lines.append("fp_is_square 0 %x" % raw); chk.append(("sq", name, v, ls))
+        small = ls is None or idx % 9 == 0 or name.split("/")[0].lstrip("-").split("*")[0] in ("1", "3", "5", "7", "9", "11", "13", "15")
+        if small:
+            lines.append("fp_inv 0 %x" % raw); chk.append(("inv", name, v, ls))
+            lines.append("fp_sqrt 0 %x" % raw); chk.append(("sqrt", name, v, ls))
+            lines.append("fp2_sqrt 0 %x 0" % raw); chk.append(("sqrt2", name, v, ls))
+            lines.append("fp2_inv 0 %x %x" % (raw, L.mont(1))); chk.append(("inv2", name, v, ls))
+    out = run_c(exe, lines)
+    D = L.dom(be)
+    bad = 0
+    legc = {}
+    for l, o, (kind, name, v, ls) in zip(lines, out, chk):
+        if ls is None:
+            if v not in legc:
+                legc[v] = 0 if v == 0 else (1 if pow(v, (p - 1) // 2, p) == 1 else -1)
+            ls = legc[v]
+        ok = True
+        try:
+            r = [int(x, 16) for x in o.split()]
+            if kind == "sq":
+                ok = r == [T32 if ls >= 0 else 0]
+            elif kind == "inv":
+                ok = len(r) == 1 and r[0] < D and (V(r[0]) * v % p == (1 if v else 0))
+            elif kind == "sqrt":
+                ok = len(r) == 1 and r[0] < D and (ls < 0 or (V(r[0]) ** 2 % p == v and V(r[0]) % 2 == 0))
+            elif kind == "sqrt2":
+                y = (V(r[0]), V(r[1]))
+                ok = len(r) == 2 and max(r) < D and cmul(p, y, y) == (v, 0) and y[0] % 2 == 0 and (y[0] != 0 or y[1] % 2 == 0)
+            else:
+                y = (V(r[0]), V(r[1]))
+                ok = len(r) == 2 and max(r) < D and cmul(p, y, (v, 1)) == (1, 0)
+        except ValueError:
+            ok = False
+        ctx.evaluations += 1
+        if not ok:
+            bad += 1
+            v2 = oracle(L, be, l, o.split()) or ("%s:lvl%d:%s" % (be, L.lvl, l.split()[0]), "result contradicts the specification")
+            ctx.violation(v2[0], "%s [%s lvl%d, binary-GCD-hard operand %s] %s" % (v2[1], be, L.lvl, name, l[:160]),
+                          dict(backend=be, level=L.lvl, op_line=l, real_code_output=o, operand=name,
+                               how_to_replay="echo '%s' | <drv_gf compiled for %s lvl%d>" % (l, be, L.lvl)))
+    ctx.case(("gcd-sweep", be, L.lvl), 0)
+    ndiff = 0
+    if ref_exe is not None:
+        sel = [i for i, c in enumerate(chk) if c[0] in ("sq", "sqrt", "sqrt2")]
+        elines = ["E:" + lines[i] for i in sel]
+        ro, bo = run_c(ref_exe, elines), run_c(exe, elines)
+        for i, a, b in zip(sel, ro, bo):
+            if a != b:
+                ndiff += 1
+                ctx.violation("lvl%d:%s:encodings-differ" % (L.lvl, lines[i].split()[0]),
+                              "ref and x86 builds give different results on a binary-GCD-hard operand (%s) [lvl%d] %s" % (chk[i][1], L.lvl, lines[i][:160]),
+                              dict(level=L.lvl, ref_op_line="E:" + lines[i], x86_op_line="E:" + lines[i], ref_output=a, x86_output=b, operand=chk[i][1]))
+    ctx.obligation("binary-GCD stress sweep %s lvl%d (%d calls, oracle only)" % (be, L.lvl, len(lines)), bad == 0 and ndiff == 0,
+                   "%d contradictions of the specification, %d ref/x86 differences" % (bad, ndiff))
+    ctx.coverage.setdefault("gcd_sweep", {})["%s lvl%d" % (be, L.lvl)] = dict(calls=len(lines), operands=len(vals), contradictions=bad, ref_x86_differences=ndiff)
+    return bad + ndiff
+
 
 
 # ------------------------------------------------------------------------------------------ running
